@@ -69,7 +69,8 @@ def desugar_pyx(src: str):
         if stripped.startswith("@cython."):
             out.append("")
             continue
-        m = re.match(r"(?:cpdef|cdef|def)\s+(?:" + _CTYPE + r"\s+)?(\w+)\s*\((.*)\)\s*:\s*$", stripped)
+        m = re.match(r"(?:cpdef|cdef|def)\s+(?:inline\s+)?(?:" + _CTYPE + r"\s+)?(\w+)\s*\((.*)\)"
+                     r"(?:\s+(?:noexcept|nogil|except\s*[-+*?\w]+))*\s*:\s*$", stripped)
         if m and re.match(r"(cpdef|cdef|def)\b", stripped):
             name, params = m.group(1), m.group(2)
             newparams = []
